@@ -139,6 +139,20 @@ func canonTypeString(t types.Type) string {
 	return types.TypeString(t, nil)
 }
 
+// inblockBuiltin: inblock(p, s) <=> p == &arr(s)[i] for some index i of the backing array of slice s (inside or outside the
+// window of s). Lets a contract exclude, by Go typing, that e.g. a *Key points into the backing array of a []Hash: the model
+// keeps all byte arrays in one heap component, so the types alone do not separate them.
+func (e *SpecEnv) inblockBuiltin(x *ECall) SV {
+	if len(x.Args) != 2 {
+		e.fail("inblock(p, s)")
+	}
+	p, s := e.eval(x.Args[0]), e.eval(x.Args[1])
+	if e.fc.tc.sortOfSV(p) != "Ptr" || e.fc.tc.sortOfSV(s) != "Slice" {
+		e.fail("inblock(pointer, slice)")
+	}
+	return SV{t: and("((_ is Elem) "+p.t+")", eq(app("epar", p.t), sarr(s.t))), typ: boolT}
+}
+
 // seqpartBuiltin: seqpart(a, off, n) == seq of the window [off, off+n) of the byte array value / byte slice a, the same
 // abstraction as seq() (uninterpreted function of block, offset, length): seqpart(a, 0, len(a)) is seq(a).
 func (e *SpecEnv) seqpartBuiltin(x *ECall) SV {
